@@ -560,3 +560,76 @@ package eval
 //@   loop 2:
 //@     invariant agree: forall k string :: {k in newPod.Labels} hasLabel(newPod.Labels, k) ==> (hasLabel(firstPod.Labels, k) && firstPod.Labels[k] == newPod.Labels[k])
 //@     invariant back: forall k string :: {seen(k)} seen(k) ==> (hasLabel(firstPod.Labels, k) && hasLabel(newPod.Labels, k))
+
+// ---------------------------------------------------------------------------------------------
+// Across ANPs (C02): scanning sortedAdminNetpols front to back, the first policy (lowest priority number, see
+// sortAdminNetpolsByPriority) that has a verdict for a point decides it - whatever the later ones say
+// ---------------------------------------------------------------------------------------------
+
+//@ fun anpAt(anp *k8s.AdminNetworkPolicy, src k8s.Peer, dst k8s.Peer, isIngress bool, act string, q string, n int) bool =
+//@     if isIngress then (anpSelects(anp, dst, true) && anpIngAt(anp, src, dst, act, q, n)) else (anpSelects(anp, src, false) && anpEgAt(anp, dst, act, q, n))
+//@ fun anpAny(anp *k8s.AdminNetworkPolicy, src k8s.Peer, dst k8s.Peer, isIngress bool, q string, n int) bool =
+//@     anpAt(anp, src, dst, isIngress, "Allow", q, n) || anpAt(anp, src, dst, isIngress, "Deny", q, n) || anpAt(anp, src, dst, isIngress, "Pass", q, n)
+//@ fun anpFirstAt(pe *PolicyEngine, a int, src k8s.Peer, dst k8s.Peer, isIngress bool, act string, q string, n int) bool =
+//@     anpAt(pe.sortedAdminNetpols[a], src, dst, isIngress, act, q, n)
+//@     && (forall b int :: {pe.sortedAdminNetpols[b]} (0 <= b && b < a) ==> !anpAny(pe.sortedAdminNetpols[b], src, dst, isIngress, q, n))
+//@ pred scanA(pc *k8s.PolicyConnections, pe *PolicyEngine, m int, src k8s.Peer, dst k8s.Peer, isIngress bool) = forall q corev1.Protocol, n int :: {iset(pc.AllowedConns.AllowedProtocols[q].Ports)[n]}
+//@     pts(pc.AllowedConns, q, n) == (exists a int :: {pe.sortedAdminNetpols[a]} 0 <= a && a < m && anpFirstAt(pe, a, src, dst, isIngress, "Allow", q, n))
+//@ pred scanD(pc *k8s.PolicyConnections, pe *PolicyEngine, m int, src k8s.Peer, dst k8s.Peer, isIngress bool) = forall q corev1.Protocol, n int :: {iset(pc.DeniedConns.AllowedProtocols[q].Ports)[n]}
+//@     pts(pc.DeniedConns, q, n) == (exists a int :: {pe.sortedAdminNetpols[a]} 0 <= a && a < m && anpFirstAt(pe, a, src, dst, isIngress, "Deny", q, n))
+//@ pred scanP(pc *k8s.PolicyConnections, pe *PolicyEngine, m int, src k8s.Peer, dst k8s.Peer, isIngress bool) = forall q corev1.Protocol, n int :: {iset(pc.PassConns.AllowedProtocols[q].Ports)[n]}
+//@     pts(pc.PassConns, q, n) == (exists a int :: {pe.sortedAdminNetpols[a]} 0 <= a && a < m && anpFirstAt(pe, a, src, dst, isIngress, "Pass", q, n))
+//@ pred anpsReady(pe *PolicyEngine) = forall a int :: {pe.sortedAdminNetpols[a]} (0 <= a && a < len(pe.sortedAdminNetpols)) ==>
+//@     (pe.sortedAdminNetpols[a] != nil && anpIngOK(pe.sortedAdminNetpols[a]) && anpEgOK(pe.sortedAdminNetpols[a]))
+
+//@ func (*PolicyEngine).getAllAllowedXgressConnectionsFromANPs
+//@   hide anpSelects, anpIngAt, anpEgAt
+//@   requires pe != nil && anpsReady(pe) && realPeer(src) && realPeer(dst) && realDst(dst) && dyntype(dst, *k8s.PodPeer) && dyntype(src, *k8s.PodPeer)
+//@   modifies *
+//@   ensures [C02] firstA: (err == nil && captured) ==> scanA(policiesConns, pe, len(pe.sortedAdminNetpols), src, dst, isIngress)
+//@   ensures [C02] firstD: (err == nil && captured) ==> scanD(policiesConns, pe, len(pe.sortedAdminNetpols), src, dst, isIngress)
+//@   ensures [C02] firstP: (err == nil && captured) ==> scanP(policiesConns, pe, len(pe.sortedAdminNetpols), src, dst, isIngress)
+//@   ensures [C02] nocapture: (err == nil && !captured) ==> (forall q corev1.Protocol, n int, a int ::
+//@         {anpIngAt(pe.sortedAdminNetpols[a], src, dst, "Allow", q, n)} {anpIngAt(pe.sortedAdminNetpols[a], src, dst, "Deny", q, n)} {anpIngAt(pe.sortedAdminNetpols[a], src, dst, "Pass", q, n)}
+//@         {anpEgAt(pe.sortedAdminNetpols[a], dst, "Allow", q, n)} {anpEgAt(pe.sortedAdminNetpols[a], dst, "Deny", q, n)} {anpEgAt(pe.sortedAdminNetpols[a], dst, "Pass", q, n)}
+//@         (0 <= a && a < len(pe.sortedAdminNetpols)) ==> !anpAny(pe.sortedAdminNetpols[a], src, dst, isIngress, q, n))
+//@   hint loop1.preserve.firstA: idx, ihA, ihD, ihP, ihcov, singlepts, call7.def, call8.allowed, call8.denied, call8.passed
+//@   hint loop1.preserve.firstD: idx, ihA, ihD, ihP, ihcov, singlepts, call7.def, call8.allowed, call8.denied, call8.passed
+//@   hint loop1.preserve.firstP: idx, ihA, ihD, ihP, ihcov, singlepts, call7.def, call8.allowed, call8.denied, call8.passed
+//@   hint loop1.preserve.covered: idx, ihcov, singlepts, call7.def, call8.allowed, call8.denied, call8.passed
+//@   before call 7 cut:
+//@     assert idx: 0 <= rangeindex && rangeindex < len(pe.sortedAdminNetpols) && anp == pe.sortedAdminNetpols[rangeindex] && pe != nil
+//@     assert wf1: wfPC(policiesConns)
+//@     assert wf2: disjPC(policiesConns)
+//@     assert wf3: anpsReady(pe)
+//@     assert wf4: allKept()
+//@     assert wf5: freshSep(policiesConns.AllowedConns) && freshSep(policiesConns.DeniedConns) && freshSep(policiesConns.PassConns)
+//@     assert s1: wfPC(singleANPConns)
+//@     assert s2: disjPC(singleANPConns)
+//@     assert s3: sepPCPC(policiesConns, singleANPConns)
+//@     assert s4: freshSep(singleANPConns.AllowedConns) && freshSep(singleANPConns.DeniedConns) && freshSep(singleANPConns.PassConns)
+//@     assert singlepts: forall q corev1.Protocol, n int :: {iset(singleANPConns.AllowedConns.AllowedProtocols[q].Ports)[n]} {iset(singleANPConns.DeniedConns.AllowedProtocols[q].Ports)[n]} {iset(singleANPConns.PassConns.AllowedProtocols[q].Ports)[n]}
+//@         pts(singleANPConns.AllowedConns, q, n) == anpAt(anp, src, dst, isIngress, "Allow", q, n)
+//@         && pts(singleANPConns.DeniedConns, q, n) == anpAt(anp, src, dst, isIngress, "Deny", q, n)
+//@         && pts(singleANPConns.PassConns, q, n) == anpAt(anp, src, dst, isIngress, "Pass", q, n)
+//@     assert ihA: scanA(policiesConns, pe, rangeindex, src, dst, isIngress)
+//@     assert ihD: scanD(policiesConns, pe, rangeindex, src, dst, isIngress)
+//@     assert ihP: scanP(policiesConns, pe, rangeindex, src, dst, isIngress)
+//@     assert ihcov: forall q corev1.Protocol, n int :: {iset(policiesConns.AllowedConns.AllowedProtocols[q].Ports)[n]} {iset(policiesConns.DeniedConns.AllowedProtocols[q].Ports)[n]} {iset(policiesConns.PassConns.AllowedProtocols[q].Ports)[n]}
+//@         (!pts(policiesConns.AllowedConns, q, n) && !pts(policiesConns.DeniedConns, q, n) && !pts(policiesConns.PassConns, q, n)) ==>
+//@         (forall b int :: {pe.sortedAdminNetpols[b]} (0 <= b && b <= rangeindex - 1) ==> !anpAny(pe.sortedAdminNetpols[b], src, dst, isIngress, q, n))
+//@   before call 9:
+//@     assert flatcov: forall q corev1.Protocol, n int, a int ::
+//@         {anpIngAt(pe.sortedAdminNetpols[a], src, dst, "Allow", q, n)} {anpIngAt(pe.sortedAdminNetpols[a], src, dst, "Deny", q, n)} {anpIngAt(pe.sortedAdminNetpols[a], src, dst, "Pass", q, n)}
+//@         {anpEgAt(pe.sortedAdminNetpols[a], dst, "Allow", q, n)} {anpEgAt(pe.sortedAdminNetpols[a], dst, "Deny", q, n)} {anpEgAt(pe.sortedAdminNetpols[a], dst, "Pass", q, n)}
+//@         (0 <= a && a < len(pe.sortedAdminNetpols) && !pts(policiesConns.AllowedConns, q, n) && !pts(policiesConns.DeniedConns, q, n) && !pts(policiesConns.PassConns, q, n))
+//@         ==> !anpAny(pe.sortedAdminNetpols[a], src, dst, isIngress, q, n)
+//@   loop 1 cut:
+//@     invariant wf: wfPC(policiesConns) && disjPC(policiesConns) && anpsReady(pe) && allKept()
+//@         && freshSep(policiesConns.AllowedConns) && freshSep(policiesConns.DeniedConns) && freshSep(policiesConns.PassConns)
+//@     invariant firstA: scanA(policiesConns, pe, rangeindex + 1, src, dst, isIngress)
+//@     invariant firstD: scanD(policiesConns, pe, rangeindex + 1, src, dst, isIngress)
+//@     invariant firstP: scanP(policiesConns, pe, rangeindex + 1, src, dst, isIngress)
+//@     invariant covered: forall q corev1.Protocol, n int :: {iset(policiesConns.AllowedConns.AllowedProtocols[q].Ports)[n]} {iset(policiesConns.DeniedConns.AllowedProtocols[q].Ports)[n]} {iset(policiesConns.PassConns.AllowedProtocols[q].Ports)[n]}
+//@         (!pts(policiesConns.AllowedConns, q, n) && !pts(policiesConns.DeniedConns, q, n) && !pts(policiesConns.PassConns, q, n)) ==>
+//@         (forall b int :: {pe.sortedAdminNetpols[b]} (0 <= b && b <= rangeindex) ==> !anpAny(pe.sortedAdminNetpols[b], src, dst, isIngress, q, n))
